@@ -77,7 +77,10 @@ class Creators:
 
   def __add_line_unknown_version(self, gfa_line):
     if isinstance(gfa_line, str):
-      rt = gfa_line[0]
+      # the record type is the first field (a comment may have no separator)
+      rt = gfa_line.split(gfapy.Line.SEPARATOR)[0]
+      if rt[0:1] == "#":
+        rt = "#"
     elif isinstance(gfa_line, gfapy.Line):
       rt = gfa_line.record_type
     else:
